@@ -90,6 +90,25 @@ check(
     "DESIGN.md section 3, C08",
 )
 
+check(
+    "C09",
+    "scripted-quantile differential oracle (block size under a forced quantile vs closed-form quantile of the declared law) + chi-square goodness of fit on random streams with independent re-confirmation",
+    "Linear chains of a single unit are generated with the real generator; under a scripted quantile the block size must equal min{n: c_n > T_ref(q)} "
+    "(exact, no statistics; knife edges skipped and counted) for five families, and on random streams the size histogram of all six families is tested "
+    "against pi_n = P(T<c_n) - P(T<c_(n-1)) computed from independent closed forms (two independent rejections needed).",
+    "Held on the cases explored. Trusts gbv/ref/dist.py (closed forms, scipy.special) and the counting of unit instances by residue number.",
+    "DESIGN.md section 3, C09",
+)
+check(
+    "C11",
+    "runtime coherence monitor of each distribution object against itself (density, interval additivity, scripted-quantile draws vs own cumulative) and against closed-form reference laws; statistical clauses re-confirmed",
+    "For parameter grids and random parameters of all six families the object's density, interval probabilities and draws are evaluated on grids of masses "
+    "and on a scripted quantile grid (incl. 1e-9 tails) and must form one probability law: non-negative, normalised within the discretisation bound, "
+    "additive, draw = generalised inverse of the own cumulative; and they must agree with the documented law (closed forms), its mean and its text form.",
+    "Held on the parameter sets explored. Wall-clock is used only to classify the known runaway bracket search (quantile above the total mass); other watchdog hits are inconclusive.",
+    "DESIGN.md section 3, C11",
+)
+
 ALL = [f"C{i:02d}" for i in range(1, 21)]
 
 
